@@ -16,13 +16,46 @@ type gen struct {
 	r     *common.Rng
 	used  map[string]bool // lower-cased names handed out (tables and columns share the pool: all distinct, case-insensitively)
 	hostile bool
+	cur   *Model // the model being built / edited (named types and collection elements are drawn from it)
+	force string // "", or the kind the next plain column must have: prim | named | coll
 }
 
 // words the Sysl lexer does not take as names (case-insensitively)
 var reserved = map[string]bool{"as": true, "any": true, "alt": true, "if": true, "int": true, "set": true, "for": true, "one": true,
 	"true": true, "else": true, "each": true, "loop": true, "date": true, "bool": true, "text": true, "until": true, "while": true}
 
-var prims = []string{"int", "string", "date", "float", "bool", "decimal", "datetime", "int", "string", "string"}
+var prims = []string{"int", "string", "date", "float", "bool", "decimal", "datetime", "int", "string", "string", "bytes", "any"}
+
+var typeKinds = []string{"alias", "aliasseq", "type", "enum", "union"}
+
+// namedType: a type text that compiles to a one-element type reference
+func (g *gen) namedType() string {
+	m := g.cur
+	switch k := g.r.Intn(10); {
+	case k < 5 && m != nil && len(m.Types) > 0:
+		return m.Types[g.r.Intn(len(m.Types))].Name
+	case k < 7 && m != nil:
+		m.Other = true
+		return "Other.Addr"
+	case k == 7:
+		return "uuid"
+	}
+	return g.name("GNM") // a name nothing defines
+}
+
+func (g *gen) elemType() string {
+	m := g.cur
+	switch k := g.r.Intn(10); {
+	case k < 4:
+		return []string{"int", "string", "string(4)", "date", "float", "bool"}[g.r.Intn(6)]
+	case k < 7 && m != nil && len(m.Tables) > 0:
+		t := m.Tables[g.r.Intn(len(m.Tables))]
+		if len(t.Cols) > 0 {
+			return t.Name + "." + t.Cols[g.r.Intn(len(t.Cols))].Name
+		}
+	}
+	return g.namedType()
+}
 
 func (g *gen) name(prefixes string) string {
 	const tail = "abcdefghijklmnopqrstuvwxyzABCDEFGHIJKLMNOPQRSTUVWXYZ0123456789"
@@ -44,6 +77,23 @@ func (g *gen) name(prefixes string) string {
 }
 
 func (g *gen) primCol(name string) Col {
+	kind := g.force
+	if kind == "" {
+		switch k := g.r.Intn(20); {
+		case k < 2:
+			kind = "named"
+		case k < 4:
+			kind = "coll"
+		default:
+			kind = "prim"
+		}
+	}
+	switch kind {
+	case "named":
+		return Col{Name: name, Named: g.namedType(), Opt: g.r.Chance(1, 4)}
+	case "coll":
+		return Col{Name: name, Coll: []string{"set", "sequence"}[g.r.Intn(2)], Elem: g.elemType()}
+	}
 	c := Col{Name: name, Prim: prims[g.r.Intn(len(prims))]}
 	if g.hostile && g.r.Chance(1, 12) {
 		c.Prim = "seqint"
@@ -99,7 +149,7 @@ func (g *gen) newTable(m *Model, rank, file int) Table {
 			c.PK = true
 			c.Opt = false
 		}
-		if c.Ref == nil && g.r.Chance(1, 5) && (c.Prim == "int" || g.r.Chance(1, 6)) {
+		if c.kind() == "prim" && g.r.Chance(1, 5) && (c.Prim == "int" || g.r.Chance(1, 6)) {
 			c.Auto = true
 		}
 		t.Cols = append(t.Cols, c)
@@ -143,6 +193,10 @@ func (g *gen) layout(m *Model, nfiles int, align bool) {
 
 func (g *gen) model(maxTables int) *Model {
 	m := &Model{}
+	g.cur = m
+	for i := []int{0, 0, 1, 1, 2, 3}[g.r.Intn(6)]; i > 0; i-- {
+		m.Types = append(m.Types, TypeDecl{Name: g.name("MAYV"), Kind: typeKinds[g.r.Intn(len(typeKinds))]})
+	}
 	n := 1 + g.r.Intn(maxTables)
 	for i := 0; i < n; i++ {
 		m.Tables = append(m.Tables, g.newTable(m, i, 0))
@@ -232,11 +286,90 @@ func (g *gen) refTargetExcludingTable(m *Model, rank int, tn string) *[2]string 
 }
 
 var editNames = []string{"add-column", "drop-column", "retype", "add-table", "drop-table", "toggle-pk", "toggle-autoinc",
-	"add-ref", "drop-ref", "retarget-ref", "drop-ref-column", "layout"}
+	"add-ref", "drop-ref", "retarget-ref", "drop-ref-column", "layout",
+	"rekind", "add-type", "drop-type", "type-to-table", "table-to-type"}
+
+// the edits of the column-kind stream: every kind added / removed / turned into every other kind, in retained and in
+// added tables
+var kindEdits = []string{"rekind", "rekind", "add-named", "add-coll", "add-prim", "drop-named", "drop-coll", "add-table-kinds",
+	"add-type", "drop-type", "type-to-table", "table-to-type", "rekind-to-ref", "rekind-from-ref"}
 
 func (g *gen) edit(m *Model, kind string) bool {
 	if len(m.Tables) == 0 {
 		return false
+	}
+	g.cur = m
+	g.force = ""
+	defer func() { g.force = "" }()
+	switch kind {
+	case "add-named", "add-coll", "add-prim":
+		g.force = strings.TrimPrefix(kind, "add-")
+		kind = "add-column"
+	case "add-table-kinds":
+		// an added table whose columns are mostly named types / collections
+		rank := 0
+		for _, x := range m.Tables {
+			if x.Rank >= rank {
+				rank = x.Rank + 1
+			}
+		}
+		nt := g.newTable(m, rank, g.r.Intn(m.NFiles))
+		for i := range nt.Cols {
+			if nt.Cols[i].Ref == nil && !nt.Cols[i].Auto && g.r.Chance(2, 3) {
+				g.force = []string{"named", "coll"}[g.r.Intn(2)]
+				c := g.primCol(nt.Cols[i].Name)
+				c.PK = nt.Cols[i].PK
+				nt.Cols[i] = c
+			}
+		}
+		pos := g.r.Intn(len(m.Tables) + 1)
+		m.Tables = append(m.Tables[:pos], append([]Table{nt}, m.Tables[pos:]...)...)
+		m.Gap = append(m.Gap, 0)
+		return true
+	case "add-type":
+		m.Types = append(m.Types, TypeDecl{Name: g.name("MAYV"), Kind: typeKinds[g.r.Intn(len(typeKinds))]})
+		return true
+	case "drop-type":
+		// columns of that type keep their text: the name is undefined from now on
+		if len(m.Types) == 0 {
+			return false
+		}
+		i := g.r.Intn(len(m.Types))
+		m.Types = append(m.Types[:i], m.Types[i+1:]...)
+		return true
+	case "type-to-table":
+		// a name that denoted a non-table type becomes a table
+		if len(m.Types) == 0 {
+			return false
+		}
+		i := g.r.Intn(len(m.Types))
+		name := m.Types[i].Name
+		m.Types = append(m.Types[:i], m.Types[i+1:]...)
+		rank := 0
+		for _, x := range m.Tables {
+			if x.Rank >= rank {
+				rank = x.Rank + 1
+			}
+		}
+		nt := g.newTable(m, rank, g.r.Intn(m.NFiles))
+		nt.Name = name
+		m.Tables = append(m.Tables, nt)
+		m.Gap = append(m.Gap, 0)
+		return true
+	case "table-to-type":
+		// a table becomes a non-table type of the same name (references to it are repaired as for a dropped table)
+		if len(m.Tables) < 2 {
+			return false
+		}
+		ti := g.r.Intn(len(m.Tables))
+		dead := m.Tables[ti]
+		m.Tables = append(m.Tables[:ti], m.Tables[ti+1:]...)
+		m.Gap = m.Gap[:len(m.Tables)]
+		for _, c := range dead.Cols {
+			g.fixReferrers(m, dead.Name, c.Name)
+		}
+		m.Types = append(m.Types, TypeDecl{Name: dead.Name, Kind: typeKinds[g.r.Intn(len(typeKinds))]})
+		return true
 	}
 	ti := g.r.Intn(len(m.Tables))
 	t := &m.Tables[ti]
@@ -263,16 +396,55 @@ func (g *gen) edit(m *Model, kind string) bool {
 		if g.r.Chance(1, 5) {
 			c.PK = true
 		}
-		if c.Ref == nil && g.r.Chance(1, 6) {
+		if c.kind() == "prim" && g.r.Chance(1, 6) {
 			c.Auto = true
 		}
 		pos := g.r.Intn(len(t.Cols) + 1)
 		t.Cols = append(t.Cols[:pos], append([]Col{c}, t.Cols[pos:]...)...)
-	case "drop-column", "drop-ref-column":
+	case "rekind", "rekind-to-ref", "rekind-from-ref":
+		i := pick(func(c *Col) bool { return !c.Auto && (kind != "rekind-from-ref" || c.Ref != nil) })
+		if i < 0 {
+			return false
+		}
+		old := t.Cols[i]
+		var targets []string
+		for _, k := range []string{"prim", "named", "coll", "ref"} {
+			if k != old.kind() && (kind != "rekind-to-ref" || k == "ref") {
+				targets = append(targets, k)
+			}
+		}
+		if len(targets) == 0 {
+			return false
+		}
+		var n Col
+		switch k := targets[g.r.Intn(len(targets))]; k {
+		case "ref":
+			ref := g.refTarget(m, t.Rank, nil)
+			if ref == nil {
+				return false
+			}
+			n = Col{Name: old.Name, Ref: ref}
+		default:
+			g.force = k
+			n = g.primCol(old.Name)
+		}
+		n.PK = old.PK
+		t.Cols[i] = n
+	case "drop-column", "drop-ref-column", "drop-named", "drop-coll":
 		if len(t.Cols) < 2 {
 			return false
 		}
-		i := pick(func(c *Col) bool { return kind == "drop-column" || c.Ref != nil })
+		i := pick(func(c *Col) bool {
+			switch kind {
+			case "drop-ref-column":
+				return c.Ref != nil
+			case "drop-named":
+				return c.Named != ""
+			case "drop-coll":
+				return c.Coll != ""
+			}
+			return true
+		})
 		if i < 0 {
 			return false
 		}
@@ -280,11 +452,12 @@ func (g *gen) edit(m *Model, kind string) bool {
 		t.Cols = append(t.Cols[:i], t.Cols[i+1:]...)
 		g.fixReferrers(m, t.Name, name)
 	case "retype":
-		i := pick(func(c *Col) bool { return c.Ref == nil })
+		i := pick(func(c *Col) bool { return c.kind() == "prim" })
 		if i < 0 {
 			return false
 		}
 		old := t.Cols[i]
+		g.force = "prim"
 		for k := 0; k < 10; k++ {
 			n := g.primCol(old.Name)
 			n.PK, n.Auto = old.PK, old.Auto
@@ -319,7 +492,7 @@ func (g *gen) edit(m *Model, kind string) bool {
 		i := pick(func(c *Col) bool { return true })
 		t.Cols[i].PK = !t.Cols[i].PK
 	case "toggle-autoinc":
-		i := pick(func(c *Col) bool { return c.Ref == nil })
+		i := pick(func(c *Col) bool { return c.kind() == "prim" })
 		if i < 0 {
 			return false
 		}
@@ -434,6 +607,29 @@ func generate(r *runner) {
 		}
 		r.run("delta", []*Model{m, n}, strings.Join(did, ","))
 	}
+	// 2b. column kinds: every kind of column type added / removed / turned into another, in retained and added tables;
+	//     non-table types declared, removed, turned into tables and back
+	nKinds := 98
+	if c.Thorough() {
+		nKinds = 812
+	}
+	if c.Search {
+		nKinds *= 3
+	}
+	for i := 0; i < nKinds; i++ {
+		g := fresh(false)
+		m := g.model(5)
+		k := kindEdits[i%len(kindEdits)]
+		n, did := g.evolve(m, 1, k)
+		if i%3 == 2 {
+			var more []string
+			n, more = g.evolve(n, 2, kindEdits[g.r.Intn(len(kindEdits))])
+			did = append(did, more...)
+		}
+		r.run("delta", []*Model{m, n}, "kinds:"+strings.Join(did, ","))
+	}
+	// 2c. several applications in one run of ProcessModSysls
+	generateApps(r)
 	// 3. identity pairs (same text; and same schema under another layout)
 	for i := 0; i < nPair/10; i++ {
 		g := fresh(false)
